@@ -23,7 +23,7 @@ func init() {
 		Explanation: "Decides the gates and the cache discipline in front of Establish: (R15.1) Establish is reached only past, in order, the signature-verified edge (when the feature is on), the success edge of Parse, the success edge of Lint, the exactly-one-meta edge and the version-compatibility gate, and it establishes pkg.GetObjects() of that very parse; " +
 			"(R15.2, sibling rule over the three Setup functions) each revision type gets its own linter, the parser is parser.New(BuildMetaScheme(), BuildObjectScheme()), and each linter contains OneMeta, its Is<Type> check and PackageValidSemver (plus the kind allow-list for Provider/Configuration); " +
 			"(R15.3) every return taken after parsing started is dominated by the receive from the cache-write channel, a failed write deletes the entry, the goroutine forwards a Store failure, a failing cache Get evicts the entry and returns, the Store key is the revision name and Store is unreachable (on flag-consistent paths) under PullNever; the cache's Get/Store/Delete file operations run under its mutex; " +
-			"(R15.4) the image backend rejects a second annotated layer, validates the layer/image before using it and positions the reader on the package stream file; (R15.5) the signature controller sets a Verified condition with constant Status True only after ok(Validate) or on the no-verification-config edge.",
+			"(R15.4) the image backend rejects a second annotated layer, validates the layer/image before using it and positions the reader on the package stream file; (R15.5) the signature controller sets a Verified condition with constant Status True only after ok(Validate) or on the no-verification-config edge. (R15.8) the generated converters of older package metadata assign every field the source and target types share (with a value that is not a zero constant).",
 		NotDecided:  []string{"equality 'declared = established' over contents", "registry bytes vs cache bytes", "concurrent writers of one cache file beyond the mutex", "the xpkg build round trip as values"},
 		Assumptions: []string{"parser.Parse consumes the stream it is given", "condition constructors return the constant Status in their body"},
 	})
@@ -669,66 +669,7 @@ func c15(c *Ctx) {
 
 	c.R.Rule("R15.8", "the conversion of older package metadata to the checked version carries every field the two versions share", 15,
 		"the gates (Crossplane version constraint, dependencies) examine the converted v1 object: a field the converter drops is a constraint that is never checked for v1beta1 / v1alpha1 metadata")
-	for _, pp := range []string{"apis/pkg/meta/v1beta1", "apis/pkg/meta/v1alpha1"} {
-		pkg := c.P.SSAPkgs[xp+pp]
-		if pkg == nil {
-			continue
-		}
-		var names []string
-		for n, m := range pkg.Members {
-			if _, ok := m.(*ssa.Type); ok && strings.HasPrefix(n, "Generated") && strings.HasSuffix(n, "Converter") {
-				names = append(names, n)
-			}
-		}
-		sort.Strings(names)
-		for _, n := range names {
-			t := pkg.Members[n].(*ssa.Type).Type()
-			nt, ok := t.(*types.Named)
-			if !ok {
-				continue
-			}
-			for i := 0; i < nt.NumMethods(); i++ {
-				fn := c.P.SSA.FuncValue(nt.Method(i))
-				if fn == nil || fn.Blocks == nil || len(fn.Params) != 2 || fn.Signature.Results().Len() != 1 {
-					continue
-				}
-				deref := func(t types.Type) *types.Struct {
-					if p, ok := t.Underlying().(*types.Pointer); ok {
-						t = p.Elem()
-					}
-					st, _ := t.Underlying().(*types.Struct)
-					return st
-				}
-				src, dst := deref(fn.Params[1].Type()), deref(fn.Signature.Results().At(0).Type())
-				if src == nil || dst == nil {
-					continue
-				}
-				written := map[string]bool{}
-				for _, b := range fn.Blocks {
-					for _, in := range b.Instrs {
-						if st, ok := in.(*ssa.Store); ok {
-							if fa, ok := st.Addr.(*ssa.FieldAddr); ok && deref(fa.X.Type()) == dst {
-								if _, isConst := st.Val.(*ssa.Const); isConst || cfgx.ZeroRead(st.Val) {
-									continue // a zero value is not the source's field
-								}
-								written[dst.Field(fa.Field).Name()] = true
-							}
-						}
-					}
-				}
-				var missing []string
-				for j := 0; j < dst.NumFields(); j++ {
-					f := dst.Field(j)
-					for k := 0; k < src.NumFields(); k++ {
-						if src.Field(k).Name() == f.Name() && !written[f.Name()] {
-							missing = append(missing, f.Name())
-						}
-					}
-				}
-				c.R.Check(len(missing) == 0, load.FuncName(fn)+": carries shared fields", c.pos(fn.Pos()), "every field the source and the target type share is assigned", "the conversion does not assign "+strings.Join(missing, ", ")+": what the older metadata declares there is lost before the gates look at it")
-			}
-		}
-	}
+	convertersComplete(c, "what the older metadata declares there is lost before the gates look at it", "apis/pkg/meta/v1beta1", "apis/pkg/meta/v1alpha1")
 
 	c.R.Rule("R15.5", "Verified is only set true for a reason", 2, "an unverified package would pass the revision controller's gate")
 	if sr := c.method("internal/controller/pkg/signature", "Reconciler", "Reconcile"); sr != nil {
@@ -893,4 +834,77 @@ func pullNeverFlags(fn *ssa.Function) []ssa.Value {
 func isErrType(t types.Type) bool {
 	n, ok := t.(*types.Named)
 	return ok && n.Obj().Pkg() == nil && n.Obj().Name() == "error"
+}
+
+// convertersComplete: every method of the generated converters (goverter output,
+// types Generated…Converter) of the named packages assigns every field its
+// source and target struct types share, with something that is not a zero constant.
+func convertersComplete(c *Ctx, lost string, pkgs ...string) {
+	for _, pp := range pkgs {
+		pkg := c.P.SSAPkgs[xp+pp]
+		if pkg == nil {
+			continue
+		}
+		var names []string
+		for n, m := range pkg.Members {
+			if _, ok := m.(*ssa.Type); ok && strings.HasPrefix(n, "Generated") && strings.HasSuffix(n, "Converter") {
+				names = append(names, n)
+			}
+		}
+		sort.Strings(names)
+		for _, n := range names {
+			t := pkg.Members[n].(*ssa.Type).Type()
+			nt, ok := t.(*types.Named)
+			if !ok {
+				continue
+			}
+			for i := 0; i < nt.NumMethods(); i++ {
+				fn := c.P.SSA.FuncValue(nt.Method(i))
+				if fn == nil || fn.Blocks == nil || len(fn.Params) != 2 || fn.Signature.Results().Len() != 1 {
+					continue
+				}
+				deref := func(t types.Type) *types.Struct {
+					if p, ok := t.Underlying().(*types.Pointer); ok {
+						t = p.Elem()
+					}
+					st, _ := t.Underlying().(*types.Struct)
+					return st
+				}
+				src, dst := deref(fn.Params[1].Type()), deref(fn.Signature.Results().At(0).Type())
+				if src == nil || dst == nil {
+					continue
+				}
+				written := map[string]bool{}
+				for _, b := range fn.Blocks {
+					for _, in := range b.Instrs {
+						if st, ok := in.(*ssa.Store); ok {
+							if _, whole := st.Addr.(*ssa.Alloc); whole && deref(st.Addr.Type()) == dst {
+								if _, isConst := st.Val.(*ssa.Const); !isConst {
+									for j := 0; j < dst.NumFields(); j++ {
+										written[dst.Field(j).Name()] = true // the whole value comes from an extension function
+									}
+								}
+							}
+							if fa, ok := st.Addr.(*ssa.FieldAddr); ok && deref(fa.X.Type()) == dst {
+								if _, isConst := st.Val.(*ssa.Const); isConst || cfgx.ZeroRead(st.Val) {
+									continue // a zero value is not the source's field
+								}
+								written[dst.Field(fa.Field).Name()] = true
+							}
+						}
+					}
+				}
+				var missing []string
+				for j := 0; j < dst.NumFields(); j++ {
+					f := dst.Field(j)
+					for k := 0; k < src.NumFields(); k++ {
+						if src.Field(k).Name() == f.Name() && !written[f.Name()] {
+							missing = append(missing, f.Name())
+						}
+					}
+				}
+				c.R.Check(len(missing) == 0, load.FuncName(fn)+": carries shared fields", c.pos(fn.Pos()), "every field the source and the target type share is assigned", "the conversion does not assign "+strings.Join(missing, ", ")+": "+lost)
+			}
+		}
+	}
 }
